@@ -270,7 +270,7 @@ def _eval_block(block, acc):
         first = block[1]
         for seq in [(first,)] + [(first, t) for t in streams.FRAME_TOKENS + streams.NOISE_TOKENS]:
             data = streams.seq_bytes(seq)
-            for sk in ("nonseekable", "minimal"):
+            for sk in ("nonseekable", "minimal", "buffered"):
                 for cfg in SCOVER + [dict(quitonerror=0, protfilter=6), dict(quitonerror=1, protfilter=5), dict(quitonerror=0, protfilter=3), dict(quitonerror=0, protfilter=0, parsing=False)]:
                     r, out = judge_stream(data, cfg, sk)
                     acc.evaluations += 1
@@ -397,7 +397,7 @@ def run_tier(tier, t0):
         assumptions=[
             f"a single call using more than {WATCHDOG_S}s of CPU time is a hang (slowest legitimate case measured: ~4 s)",
             "every boundary-length frame and every content-refused frame (NMEATypeError, UBXTypeError, UBXMessageError, RTCMTypeError) between every pair of 7 neighbour tokens x 6 configurations",
-            "token sequences of <= 2 through a pipe-like stream object (seek/tell exist and raise) and a read/readline-only object x 10 configurations incl. every single-protocol-excluded mask",
+            "token sequences of <= 2 through a pipe-like stream object (seek/tell exist and raise), a read/readline-only object and a BufferedReader x 10 configurations incl. every single-protocol-excluded mask",
             "runs of 1,100 and 3,000 consecutive discarded messages (rejected, or filtered out by protfilter) followed by one good frame",
             "stream livelock = more than 4*len+16 stream calls (deterministic horizon); socket streams (fixed chunks, every cut, close/timeout): more than 64 recv calls after the end",
         ],
